@@ -222,7 +222,7 @@ func isTrackKey(k string) bool {
 		strings.HasPrefix(k, "c:") || strings.HasPrefix(k, "sub:") || strings.HasPrefix(k, "validated:") ||
 		strings.HasPrefix(k, "tm:") || strings.HasPrefix(k, "lin:") || strings.HasPrefix(k, "tpl:") ||
 		strings.HasPrefix(k, "okhash:") || strings.HasPrefix(k, "mangled:") || strings.HasPrefix(k, "rangeof:") ||
-		strings.HasPrefix(k, "elemvalid:") || strings.HasPrefix(k, "hexorsame:")
+		strings.HasPrefix(k, "elemvalid:") || strings.HasPrefix(k, "hexorsame:") || strings.HasPrefix(k, "tag:")
 }
 
 // Invalidate forgets everything known about term t (and what depends on it).
@@ -1771,6 +1771,23 @@ func (b *Base) InlineCall(x *Exec, call *ast.CallExpr, fi *FuncInfo, lhs []ast.E
 						nk := strings.ReplaceAll(k, vt+".", lt+".")
 						if !mentionsRange(nk, lo, hi) {
 							adds[nk] = v
+						}
+					}
+				}
+			}
+		}
+		// a tag a rule attached to a returned value ("tag:<term>") follows the value to the variable
+		// it is assigned to in the caller
+		if e.Ret != nil && len(e.Ret.Results) == len(lhs) {
+			cx := &Exec{Fn: callee}
+			for i, re := range e.Ret.Results {
+				if _, ok := ast.Unparen(re).(*ast.Ident); !ok {
+					continue
+				}
+				if vt, ok := b.Term(cx, re, st); ok {
+					if v := st.Get("tag:" + vt); v != "" {
+						if lt, ok := b.LTerm(x, lhs[i], st); ok {
+							adds["tag:"+lt] = v
 						}
 					}
 				}
